@@ -270,6 +270,8 @@ class Ctx:
             if key not in self.known_hits:
                 self.known_hits.append(key)
                 print("KNOWN-FINDING: property=%s %s" % (self.pid, k["what"]))
+            # a listed finding is reported as such (coverage.known_findings_hit), not as an undischarged proof obligation
+            self.obligations = [o for o in self.obligations if o[1] or key not in o[0]]
             return False
         os.makedirs(os.path.join(VERIF, "replays"), exist_ok=True)
         h = hashlib.sha1(json.dumps([key, replay_obj], sort_keys=True, default=str).encode()).hexdigest()[:10]
